@@ -21,6 +21,9 @@ type OutgoingTransfer struct {
 	dataStream *bufio.Reader
 }
 
+// maxSegmentLength is the upper limit for a segment's length, regardless of a greater peer's segment MRU.
+const maxSegmentLength uint64 = 1048576
+
 // NewOutgoingTransfer creates a new OutgoingTransfer for data written into the returned Writer.
 func NewOutgoingTransfer(id uint64) (t *OutgoingTransfer, w io.Writer) {
 	r, w := io.Pipe()
@@ -59,6 +62,15 @@ func (t *OutgoingTransfer) NextSegment(mtu uint64) (dtm *msgs.DataTransmissionMe
 	if t.startFlag {
 		t.startFlag = false
 		segFlags |= msgs.SegmentStart
+	}
+
+	// The MTU is the peer's segment MRU, an unverified value. A zero MTU would result in an endless stream of empty
+	// segments and a huge one in a huge buffer. Sending smaller segments than allowed is always possible.
+	if mtu == 0 {
+		err = fmt.Errorf("segment MTU must not be zero")
+		return
+	} else if mtu > maxSegmentLength {
+		mtu = maxSegmentLength
 	}
 
 	var buf = make([]byte, mtu)
